@@ -164,6 +164,17 @@ func runOps(sc SeqCheck, ops []Op) (own []Violation, trace []string) {
 	return nil, trace
 }
 
+// residueTask returns a task that is todo but claimed - what a claim whose state line was
+// torn off leaves - or "".
+func residueTask(s *Snapshot) string {
+	for _, id := range s.SortedIDs() {
+		if it := s.Items[id]; !it.IsEpic && it.State == "todo" && it.ClaimedBy != "" {
+			return id
+		}
+	}
+	return ""
+}
+
 // RunSeq is the body shared by all SEQ-based tests.
 func RunSeq(t *testing.T, sc SeqCheck) {
 	if sc.Profile.ChopPct == 0 {
@@ -221,7 +232,26 @@ func RunSeq(t *testing.T, sc SeqCheck) {
 				if inner.Kind == "plan" || inner.Kind == "compact" {
 					kind = "tmp"
 				}
-				op = Op{Kind: "fault", Inner: &inner, FaultKind: kind, Frac: float64(uni(rt, 1000, "seq.fault.frac")) / 1000}
+				frac := uni(rt, 1000, "seq.fault.frac")
+				if kind == "tear" && pct(rt, 50, "seq.fault.late") {
+					frac = 700 + frac*3/10 // the earlier lines of the batch complete, the last one cut
+				}
+				op = Op{Kind: "fault", Inner: &inner, FaultKind: kind, Frac: float64(frac) / 1000}
+			} else if residue := residueTask(pre); residue != "" && sc.TolerateResidue && pct(rt, 35, "seq.residue.target") {
+				// a task the crash left half-claimed (claim recorded, state change cut off):
+				// ordinary edits of it are ordinary commands
+				g := refGen{rt, w, pre}
+				r := g.ref(residue)
+				op = Op{Kind: "set", Mode: oneOf(rt, []string{"json", "json", "flags"}, "seq.residue.mode"), Target: &r, Agent: oneOf(rt, agents, "seq.residue.agent")}
+				switch uni(rt, 3, "seq.residue.field") {
+				case 0:
+					op.Title = sp(w.UniqueTitle("edited after the crash"))
+				case 1:
+					op.Body = sp(genBody(rt, "seq.residue.body"))
+				default:
+					op.Title = sp(w.UniqueTitle("edited after the crash"))
+					op.Body = sp(genBody(rt, "seq.residue.body"))
+				}
 			} else if sc.GenOp != nil {
 				op = sc.GenOp(rt, w, pre, sc.Profile)
 			} else {
